@@ -331,9 +331,13 @@ impl World {
         let key = self.key.clone();
         let mut rest = serde_json::Map::new();
         let visible: Vec<Id> = map.keys().filter(|k| k.0 == 3).map(|k| k.1).collect();
-        let check = match scn::guard(|| scn::open(&h, &key).and_then(|r| scn::check_clean(&r))) {
-            Outcome::Ok(true) => "clean".to_string(),
-            Outcome::Ok(false) => "error".to_string(),
+        let mut check_msgs = Vec::new();
+        let check = match scn::guard(|| scn::open(&h, &key).and_then(|r| scn::check_errors(&r))) {
+            Outcome::Ok(v) if v.is_empty() => "clean".to_string(),
+            Outcome::Ok(v) => {
+                check_msgs = v;
+                "error".to_string()
+            }
             o => format!("{}:{}", o.class(), o.msg()),
         };
         let repo = scn::guard(|| scn::open(&h, &key).and_then(rustic_core::Repository::to_indexed));
@@ -359,7 +363,8 @@ impl World {
             };
             _ = rest.insert(name, json!(res));
         }
-        json!({"e":"probe","check":check,"rest":rest})
+        check_msgs.truncate(3);
+        json!({"e":"probe","check":check,"rest":rest,"check_msgs":check_msgs})
     }
 }
 
